@@ -1,9 +1,11 @@
 package props
 
 import (
-	"github.com/freeconf/yang/meta"
 	"encoding/json"
 	"fmt"
+	"github.com/freeconf/yang/meta"
+	"reflect"
+	"sort"
 	"strings"
 
 	"verif/harness/core"
@@ -102,7 +104,85 @@ func caseHasDataGo(kids []*gen.SNode, body []*gen.DNode) bool {
 	return false
 }
 
+// a target whose new containers and list entries are born with data of one case (what the OnNewObject hook of
+// nodeutil.Node is for): an upsert that creates such a node and writes another case into it leaves that case alone.
+const c09bornYang = `module bn { namespace "urn:bn"; prefix bn; revision 2020-01-01;
+  container box { leaf other { type string; }
+    choice mode { case a { leaf a1 { type string; } leaf a2 { type string; } } case b { leaf b1 { type string; } container bc { leaf x { type string; } } } case c { leaf c1 { type string; } } } }
+  list item { key k; leaf k { type string; }
+    choice mode { case a { leaf a1 { type string; } } case b { leaf b1 { type string; } leaf b2 { type string; } } } }
+}`
+
+func c09born(c *core.Ctx) {
+	m, err := parser.LoadModuleFromString(nil, c09bornYang)
+	if err != nil {
+		c.Violation(core.Replay{Kind: "harness", Summary: "c09born module: " + err.Error(), NoInputFound: true})
+		return
+	}
+	cases := []struct{ payload, want string }{
+		{`{"box":{"b1":"v"}}`, `{"box":{"b1":"v"}}`},
+		{`{"box":{"other":"o","b1":"v"}}`, `{"box":{"b1":"v","other":"o"}}`},
+		{`{"box":{"c1":"z","other":"o"}}`, `{"box":{"c1":"z","other":"o"}}`},
+		{`{"box":{"a2":"w"}}`, `{"box":{"a1":"born","a2":"w"}}`},
+		{`{"box":{"other":"o"}}`, `{"box":{"a1":"born","other":"o"}}`},
+		{`{"box":{"bc":{"x":"1"}}}`, `{"box":{"bc":{"x":"1"}}}`},
+		{`{"item":[{"k":"k1","b1":"v"}]}`, `{"item":[{"b1":"v","k":"k1"}]}`},
+		{`{"item":[{"k":"k1","b2":"v"},{"k":"k2"}]}`, `{"item":[{"b2":"v","k":"k1"},{"a1":"born","k":"k2"}]}`},
+		{`{"item":[{"k":"k1","a1":"mine"}]}`, `{"item":[{"a1":"mine","k":"k1"}]}`},
+	}
+	for _, tc := range cases {
+		data := map[string]interface{}{}
+		n := &nodeutil.Node{Object: data}
+		n.OnNewObject = func(t reflect.Type, d meta.Definition, insideList bool) (reflect.Value, error) {
+			if d.Ident() == "box" || (d.Ident() == "item" && insideList) {
+				return reflect.ValueOf(map[string]interface{}{"a1": "born"}), nil
+			}
+			if _, isList := d.(*meta.List); !isList {
+				return reflect.ValueOf(map[string]interface{}{}), nil
+			}
+			return n.DoNewObject(t, d, insideList)
+		}
+		var got string
+		e := safeDo(func() error {
+			src, err := nodeutil.ReadJSON(tc.payload)
+			if err != nil {
+				return err
+			}
+			if err := node.NewBrowser(m, n).Root().UpsertFrom(src); err != nil {
+				return err
+			}
+			// the store itself, independent of the library's reading of it
+			if items, ok := data["item"].(map[string]interface{}); ok {
+				var keys []string
+				for k := range items {
+					keys = append(keys, k)
+				}
+				sort.Strings(keys)
+				var arr []interface{}
+				for _, k := range keys {
+					arr = append(arr, items[k])
+				}
+				data["item"] = arr
+			}
+			jb, err := json.Marshal(data)
+			got = string(jb)
+			return err
+		})
+		if e != nil {
+			got = "error " + short(e.Error())
+		}
+		c.Evaluations++
+		c.Count("born_with_a_case", "upsert creating a pre-populated node")
+		c.Distinct("born " + tc.payload)
+		if got != tc.want {
+			c.Violation(core.Replay{Kind: "property-failure", Class: "born-with-a-case", Summary: fmt.Sprintf("upsert of %s into a target whose new box / item is born with a1: the store holds %s, want %s", tc.payload, got, tc.want),
+				Input: map[string]interface{}{"yang": c09bornYang, "payload": tc.payload, "new_nodes_are_born_with": `{"a1":"born"}`}, Impl: got, Spec: tc.want})
+		}
+	}
+}
+
 func C09(c *core.Ctx) {
+	c09born(c)
 	c.Rule = "generated schemas with several choices per container, choices nested in cases, shorthand cases, choices inside containers and inside a list entry; histories of 1–8 upserts that alternate between cases and switch back, from 3 source implementations into the reference store, reflection over maps and nodeutil.Node; after every step the complete target (re-read independently) is compared with the Lean model and the at-most-one-case invariant is checked on the real store; reads of stores that hold two cases are compared with the model's read; steps into the reference store are repeated with one node callback of the target failing (every position for short steps, a sample otherwise): whatever the call returns the store must still satisfy the invariant. non-trivial = step whose source writes into a choice that already has another case selected; distinct by (schema, history prefix, implementations)"
 	c.Assumptions = append(c.Assumptions,
 		"the model covers leaves, containers and choices; lists enter only as the entry a history edits",
@@ -164,7 +244,7 @@ func C09(c *core.Ctx) {
 		hasNested := strings.Count(y, "choice") >= 2
 		for hi := 0; hi < perSchema; hi++ {
 			r := rng.Fork()
-			tgtKind := core.Pick(r, []string{"refstore", "refstore", "reflect-map", "node-map", "node-map-hooked"})
+			tgtKind := core.Pick(r, []string{"refstore", "refstore", "reflect-map", "node-map", "node-map-hooked", "tee"})
 			// the target starts empty (or with the single list entry)
 			tree := gen.EmptyBody(rootKids)
 			if inList {
@@ -175,9 +255,14 @@ func C09(c *core.Ctx) {
 			}
 			var root node.Node
 			var tgtMap map[string]interface{}
+			var treeB []*gen.DNode
 			switch tgtKind {
 			case "refstore":
 				root = refstore.NewBody(nil, rootKids, tree, "")
+			case "tee":
+				// two stores written together (nodeutil.Tee): both must hold the result
+				treeB = gen.Clone(tree)
+				root = nodeutil.Tee{A: refstore.NewBody(nil, rootKids, tree, ""), B: refstore.NewBody(nil, rootKids, treeB, "")}
 			case "reflect-map":
 				tgtMap = gen.ToMap(rootKids, tree)
 				root = nodeutil.ReflectChild(tgtMap)
@@ -237,6 +322,12 @@ func C09(c *core.Ctx) {
 				un := false
 				if tgtKind == "refstore" {
 					after = tree
+				} else if tgtKind == "tee" {
+					after = tree
+					if a, bb := gen.Canon(rootKids, tree, false), gen.Canon(rootKids, treeB, false); a != bb && opErr == nil {
+						c.Violation(core.Replay{Kind: "property-failure", Class: "tee-stores-differ", Summary: fmt.Sprintf("step %d upsert %s through nodeutil.Tee: the first store holds %s, the second %s", k+1, hist[len(hist)-1], short(a), short(bb)),
+							Input: map[string]interface{}{"yang": y, "history": append([]string{}, hist...), "first_store": a, "second_store": bb}})
+					}
 				} else if tgtKind == "node-map-hooked" {
 					after = gen.FromMap(rootKids, c09unhook(tgtMap), &un)
 				} else {
